@@ -336,6 +336,12 @@ Fixpoint window_rev (from : N) (rl : list frame) (limit found : nat) (acc : list
 Definition mr_window (limit : nat) (l : log) (from : N) : log :=
   window_rev from (rev (filter mr_keep l)) limit 0 [].
 
+(* the same loop with the bound the code had before the S26 fix: at the end of its 64 MiB / 100 000-frame back-scan the
+   window was handed over as it was, with fewer than `limit` messages although older ones exist (`cap` = that bound, in
+   frames).  Since the fix the scan that hits its bound answers None and the caller falls back (full-sidecar window, replay). *)
+Definition mr_window_capped (limit cap : nat) (l : log) (from : N) : log :=
+  lastn_frames cap (mr_window limit l from).
+
 (* ------------------------------------------------------------------ specification *)
 Definition lastn {A} (n : nat) (l : list A) : list A := rev (firstn n (rev l)).
 
